@@ -101,4 +101,4 @@ func specBodyAppendTo(b Body, dst []byte) (result []byte) { return nil }
 //@ modifies dst
 //@ ensures [len]    len(result) == len(old(dst)) + len(r.body)
 //@ ensures [prefix] forall j :: 0 <= j && j < len(old(dst)) ==> result[j] == old(dst)[j]
-//@ ensures [bytes]  forall j :: 0 <= j && j < len(r.body) ==> result[len(old(dst))+j] == r.body[j]
+//@ ensures [bytes]  forall j :: 0 <= j && j < len(r.body) ==> result[len(old(dst))+j] == old(r.body)[j]
